@@ -6,13 +6,15 @@ sys.path.insert(0, '/verif/bin'); sys.path.insert(0, '/verif')
 ALL = ['C%02d' % i for i in range(1, 21)]
 PENDING_REASON = 'check not built yet (planned, see DESIGN.md section 3); not claimed until its TLA+ specification and conformance harness exist'
 NA = {}
+# properties whose check is finished and reviewed (a check module that exists but is not listed here is work in progress)
+READY = ['C01', 'C02', 'C15', 'C20']
 
 def main():
     commits = subprocess.run(['git', '-C', '/repo', 'log', '--format=%h %s'], capture_output=True, text=True).stdout.splitlines()
     hooks = [c.split()[0] for c in commits if c.split(' ', 1)[1].startswith('verif:')]
     claimed = {}
     for pid in ALL:
-        if pid in NA or not os.path.exists(f'/verif/checks/{pid.lower()}.py'):
+        if pid in NA or pid not in READY or not os.path.exists(f'/verif/checks/{pid.lower()}.py'):
             continue
         mod = importlib.import_module('checks.' + pid.lower())
         if getattr(mod, 'META', None):
